@@ -16,7 +16,9 @@ SHRINK_BUDGET = 200
 RULE = ("write histories on a fresh temp directory: creation time (aligned / unaligned / just before midnight UTC), size limit from "
         "{1..100000} and file-count limit from {1..6} so that 0..12 size rolls, day rolls and removals happen; per-second batches of 1-4 items "
         "(second steps 0,0,1,1,2,5; occasionally backwards, ts 0, empty batch), resource names from a small pool (ASCII, UTF-8, one with '|'), "
-        "counters boundary-heavy (0, 1, 2^32-1, 2^64-1, class +-2^31); restarts of the writer on the same directory (log.reopen) at a later clock "
+        "counters boundary-heavy (0, 1, 2^32-1, 2^64-1, class +-2^31); one case in ten with resource names of 8000 .. 40000 bytes (token R<n>; line lengths exactly around the reader's 8192-byte buffer; "
+        "single lines larger than the size limit), first / middle / last in a batch, found by name, by * and from-time, cuts around line ends and "
+        "multiples of 8192; restarts of the writer on the same directory (log.reopen) at a later clock "
         "(same second .. past midnight) with other, mostly smaller, limits, followed by writes with log.files after each; queries FindByTimeAndResource / FindFromTimeWithMaxLines interleaved "
         "with the writes and at the end, on two long-lived searchers (position cache) and on fresh ones, begin/end on written seconds +-1 and "
         "unaligned; then a crash phase: quick = every cut offset inside the last 3 lines of the last data file and the last 3 entries of its "
@@ -30,6 +32,8 @@ U64 = 2 ** 64 - 1
 
 
 def enc_len(res):
+    if res.startswith("R") and res[1:].isdigit():      # token R<n>: the deterministic name of n bytes
+        return int(res[1:])
     return len(res.encode("utf-8"))
 
 
@@ -239,11 +243,92 @@ def gen_case(rng, cid, tier, forced=None):
     return Case(cid, ops, tags=(kind, f"size={max_size}", f"files={max_files}", f"rolls={sim.rolls}", f"cuts={ncut}", f"reopens={nreopen}"))
 
 
+LONG = [8000, 8150, 8176, 8192, 8208, 16400, 40000]
+
+
+def gen_long(rng, cid, tier):
+    """resource names longer than the reader's 8 KiB buffer (token R<n>), placed first / in the middle / last in a
+    batch and followed by normal items; single lines larger than the size limit"""
+    t0 = B0 + rng.randint(0, 50000) * 1000
+    max_size = rng.choice([1, 300, 8192, 10000, 20000, 100000, 1000000])
+    max_files = rng.choice([2, 3, 6])
+    ops = [f"clock {t0}", f"log.new {max_size} {max_files}"]
+    sim = Sim(t0, max_size, max_files)
+    ts = t0
+    nb = rng.randint(4, 8)
+    long_at = set(rng.sample(range(nb), rng.choice([1, 2, 2, 3])))
+    names = []
+    for bi in range(nb):
+        ts += rng.choice([0, 1, 1, 1, 2]) * 1000
+        items = [rand_item(rng) for _ in range(rng.randint(1, 3))]
+        if bi in long_at:
+            it = list(rand_item(rng))
+            if rng.random() < 0.35:
+                # line length (with LF) exactly around the 8192-byte buffer
+                it[0] = "R1"
+                n = 1 + rng.choice([8190, 8191, 8192, 8193, 8194]) - line_len(ts, tuple(it))
+            else:
+                n = rng.choice(LONG) + rng.choice([0, 0, -16, 16, 1])
+            it[0] = f"R{n}"
+            names.append(it[0])
+            pos = rng.choice([0, len(items) // 2, len(items)])
+            if rng.random() < 0.2:
+                items = []                       # the long item alone in its batch
+            items.insert(min(pos, len(items)), tuple(it))
+        ops.append(f"log.write {ts} {len(items)} " + " ".join(item_tok(i) for i in items))
+        sim.write(ts, items)
+        if rng.random() < 0.3:
+            ops.append("log.files")
+    ops.append("log.files")
+    nq = 0
+    for nm in names:
+        ops.append(f"log.find l{nq} {t0} {10 ** 14} {nm}")
+        nq += 1
+    for _ in range(rng.randint(3, 6)):
+        sid = rng.choice(["s1", "s1", f"f{nq}"])
+        b = rng.choice(sim.secs) * 1000
+        x = rng.random()
+        if x < 0.4:
+            ops.append(f"log.find {sid} {b} {10 ** 14} " + rng.choice(["*", "*", "a", "b"] + names))
+        elif x < 0.6:
+            ops.append(f"log.find {sid} {b} {b + rng.choice([0, 1000, 3000])} *")
+        else:
+            ops.append(f"log.from {sid} {b} {rng.choice([1, 2, 3, 5, 100])}")
+        nq += 1
+    ncut = 0
+    if rng.random() < 0.5 and sim.lines:
+        total = sum(l for l, _ in sim.lines)
+        cuts = set()
+        off = 0
+        for l, _ in sim.lines:
+            for d in (-1, 0, 1, 2):
+                cuts.add(off + l + d)            # around every line end
+            for m in range(off // 8192 * 8192, off + l + 1, 8192):
+                cuts.update([m - 1, m, m + 1])   # around multiples of the buffer size
+            cuts.add(off + rng.randint(0, l))
+            off += l
+        cuts = sorted(c for c in cuts if 0 <= c <= total)
+        if len(cuts) > 40:
+            cuts = sorted(rng.sample(cuts, 40))
+        for k in cuts:
+            ops.append(f"log.cut data {k}")
+            ops.append(f"log.find d{k} {rng.choice(sim.secs) * 1000} {10 ** 14} " + rng.choice(["*", "*", "a"] + names))
+            if rng.random() < 0.3:
+                ops.append(f"log.from d{k}b {rng.choice(sim.secs) * 1000} {rng.choice([1, 3, 100])}")
+            ncut += 1
+        ops.append("log.files")
+    ops.append("log.end")
+    return Case(cid, ops, tags=("long", f"size={max_size}", f"files={max_files}", f"rolls={sim.rolls}", f"cuts={ncut}", "reopens=0"))
+
+
 def gen(ctx, n):
     kinds = ["first", "cache", "orphan", "torn", "reopen"]
     out = []
     for i in range(n):
         forced = kinds[i % 5] if i % 10 < 5 and i // 10 % 2 == 0 else None
+        if i % 10 == 7:
+            out.append(gen_long(ctx.rng, f"g{ctx.seed}-{ctx.cov.get('traces_validated_against_impl', 0)}-{i}", ctx.tier))
+            continue
         out.append(gen_case(ctx.rng, f"g{ctx.seed}-{ctx.cov.get('traces_validated_against_impl', 0)}-{i}", ctx.tier, forced))
     return out
 
